@@ -6,7 +6,8 @@
 
   The allowances (everything else is conserved or destroyed):
   * batch level (`batchIssuance`, Props/C01.lean): faucet outputs and fee, a transaction's own new token, minted ERG;
-  * builtin pools created on first use: 10^9 of each side, nobody-owned (`C01_builtins`);
+  * builtin pools created on first use, or afresh once they record no liquidity: 10^9 of each side, nobody-owned
+    (`C01_builtins`);
   * the peg adjustment of the MEL/SYM pool: at most 1/throttler of the gap to the desired reserve, on ONE side per
     step (`pegAllowance`);
   * the TIP-909 subsidy: SYM only, 2^SUBSIDY_LOG2 halving every SUBSIDY_HALVING blocks (`C01_subsidy`);
@@ -82,7 +83,9 @@ theorem C01_block_whole (env : Env) (s s₁ s₂ : State) (txs : List Tx) (fb : 
   omega
 
 /-- in particular: a block without faucet / mint / new-token transactions on a chain where the builtin pools
-    exist, for a denomination other than MEL, SYM and liquidity tokens, creates nothing at all -/
+    exist and record liquidity (an emptied builtin pool is created afresh since the `fix:` for F23, which adds its
+    nobody-owned 10^9 of each side), for a denomination other than MEL, SYM and liquidity tokens, creates nothing at
+    all -/
 theorem C01_block_closed (env : Env) (s s₁ s₂ : State) (txs : List Tx) (fb : Header) (a : Option ProposerAction)
     (ss : Sealed)
     (hb : applyBatch env s txs fb = .ok s₁) (hs : sealState env s₁ a = .ok ss)
@@ -90,7 +93,7 @@ theorem C01_block_closed (env : Env) (s s₁ s₂ : State) (txs : List Tx) (fb :
     (hk : (s.coins.coins.map (·.1)).Nodup) (hp : SealPre s₁) (hl : legacyDeposit s₁ = false)
     (hfresh : s₁.coins.getCoin { txhash := env.rewardId s₁.height, index := 0 } = none)
     (hc : ∀ tx ∈ txs, tx.kind ≠ .faucet ∧ tx.kind ≠ .doscMint ∧ ∀ o ∈ tx.outputs, o.denom ≠ .newCustom)
-    (hbuilt : ∀ k ∈ [poolMelSym, poolMelErg, poolErgSym], (s₁.pools.get k).isSome)
+    (hbuilt : ∀ k ∈ [poolMelSym, poolMelErg, poolErgSym], ∃ p, s₁.pools.get k = some p ∧ p.liqs ≠ 0)
     (d : Denom) (hd : ∀ k : PoolKey, d ≠ liqTokenDenom env k) (hmel : d ≠ .mel) (hsym : d ≠ .sym) :
     supply s₂ d ≤ supply s d := by
   have h1 := C01_apply_closed env s s₁ txs fb hb hk hc d
